@@ -8,7 +8,7 @@ from vk import refmodel as rm
 ID = 'C14'
 LEVEL = 'exploration'
 RULE = ('Hypothesis draws max_http_buffer_size from {1, 2, 5, 16, 100, 1000, default}, a carrier '
-        '{POST body, frame on an established WebSocket (ws-first or upgraded), first frame and '
+        '{POST body (plain or the JSONP form d=...), frame on an established WebSocket (ws-first or upgraded), first frame and '
         'second frame of an upgrade socket}, a length from {limit-2..limit+2, 0, 1, 10*limit}, '
         'text, binary or base64-text (b...) content, a declared Content-Length smaller / equal / larger than the body, '
         'the configured per-body packet limit {16 (default), 1, 4, 40} and the number of packets in the body 0..limit+2, and the number of body chunks; each case runs on a '
@@ -36,7 +36,7 @@ def V(impl, clause, trigger, detail, case):
 def case_st(draw):
     impl = draw(st.sampled_from(['thread', 'async']))
     L = draw(st.sampled_from(LIMITS))
-    carrier = draw(st.sampled_from(['post', 'post', 'post-many', 'ws-frame', 'ws-frame-upgraded',
+    carrier = draw(st.sampled_from(['post', 'post', 'post-form', 'post-many', 'ws-frame', 'ws-frame-upgraded',
                                     'upg-first', 'upg-second', 'upg-real-handshake',
                                     'post-to-ws-first', 'post-to-upgraded']))
     big = 10 * L if L < 1000000 else L + 4096
@@ -122,6 +122,38 @@ def check_case(case, ctx=None):
                         raise V(impl, 'oversize-post-did-not-end-session', trig,
                                 'declared %d > limit %d, the WebSocket session is still up' % (
                                     dec, L), rep)
+        elif carrier == 'post-form':
+            # the JSONP form d=<packet>: the limit counts the bytes on the wire
+            size = case['size']
+            if size < 3:
+                return
+            body = ('d=4' + 'a' * (size - 3)).encode()
+            r = w.http('POST', 'transport=polling&EIO=4&sid=' + sid + '&j=0', body=body,
+                       headers=[('Host', 'localhost'),
+                                ('Content-Type', 'application/x-www-form-urlencoded')])
+            w.settle()
+            trig = 'post-form|size-limit=%s' % rel(size, L)
+            if size > L:
+                if msgs():
+                    raise V(impl, 'oversize-body-reached-handler', trig,
+                            'form body of %d > limit %d but message events %r' % (
+                                size, L, [str(m)[:20] for m in msgs()]), rep)
+                if not r.done or r.status != 400:
+                    raise V(impl, 'oversize-post-not-400', trig,
+                            'form body of %d > limit %d: done=%s status=%s' % (
+                                size, L, r.done, r.status), rep)
+                if not disc():
+                    raise V(impl, 'oversize-post-did-not-end-session', trig,
+                            'form body of %d > limit %d, no disconnect event' % (size, L), rep)
+            else:
+                if not r.done or r.status != 200:
+                    raise V(impl, 'body-within-limit-refused', trig,
+                            'form body of %d bytes (limit %d): done=%s status=%s' % (
+                                size, L, r.done, r.status), rep)
+                if msgs() != ['a' * (size - 3)]:
+                    raise V(impl, 'body-within-limit-not-processed', trig,
+                            'form body of %d bytes: message events %r' % (
+                                size, [str(m)[:20] for m in msgs()]), rep)
         elif carrier == 'post':
             size = case['size']
             body = ascii_packet(size).encode() if size >= 1 else b''
